@@ -84,6 +84,49 @@ def f(X: FLOAT[3], c: BOOL) -> FLOAT[3]:
 X = np.array([1, 2, 3], dtype=np.float32)
 INPUTS = [dict(X=X, c=np.array(True)), dict(X=X, c=np.array(False))]
 """,
+    # the enclosing function assigns, AFTER the nested definition, variables named like the nested function's parameters and
+    # locals (the body's formal inputs must stay distinct from every name of the enclosing graph)
+    "nested_param_names_reused_outside": """
+@script(default_opset=op)
+def f(X: FLOAT[3], c: BOOL) -> FLOAT[3]:
+    @graph()
+    def Acc(acc: FLOAT, nxt: FLOAT):
+        sq = nxt * nxt
+        out = acc + sq
+        return out, out
+    s0 = op.Constant(value_float=0.0)
+    _l, cs = op.Scan(s0, X, body=Acc, num_scan_inputs=1)
+    acc = cs * 2.0
+    nxt = acc + 1.0
+    sq = nxt - X
+    if c:
+        out = sq + acc
+    else:
+        out = sq - acc
+    return out + nxt
+X = np.array([1, 2, 3], dtype=np.float32)
+INPUTS = [dict(X=X, c=np.array(True)), dict(X=X, c=np.array(False))]
+""",
+    # ... and the same names used BEFORE the nested definition as well as after it, with the body capturing one of them
+    "nested_param_names_around_definition": """
+@script(default_opset=op)
+def f(X: FLOAT[3], c: BOOL) -> FLOAT[3]:
+    nxt = X + 1.0
+    k = op.Constant(value_float=2.0)
+    @graph()
+    def Acc(acc: FLOAT, nxt: FLOAT):
+        out = acc + nxt * k
+        return out, out
+    s0 = op.Constant(value_float=0.0)
+    _l, cs = op.Scan(s0, nxt, body=Acc, num_scan_inputs=1)
+    acc = cs + nxt
+    if c:
+        acc = acc * k
+    out = acc - X
+    return out
+X = np.array([1, 2, 3], dtype=np.float32)
+INPUTS = [dict(X=X, c=np.array(True)), dict(X=X, c=np.array(False))]
+""",
     # tuple assignment from a multi-output op in both branches, both results live afterwards
     "split_in_branches": """
 @script(default_opset=op)
